@@ -172,6 +172,10 @@ CDiskFiles(e) ==
      /\ {f \in S(d.files) : f # "?"} = blob'[r]
      /\ d.uploads = Cardinality({h \in DOMAIN sess' : sess'[h].open /\ sess'[h].repo = r})
 
+\* after a collection no index entry is left without backing content (directory store: read from index.json)
+CGCIndex(e) ==
+  \A r \in GCRepos(e) : (HasDisk(e, r) /\ e.obs[r].disk.index = "ok") => \A x \in S(e.obs[r].disk.entries) : x.file
+
 \* C14: a read-only directory store and a memory store over a directory never touch the directory;
 \* requests of a switched-off class are refused and change nothing that can be read
 Frozen == Cfg.readOnly \/ env.store = "memdir"
@@ -189,7 +193,7 @@ Clauses(e) ==
   { <<"resp", CResp(e)>>, <<"tagsresp", CTagsResp(e)>>, <<"integrity", CIntegrity(e)>>, <<"sync.blobs", CSyncBlobs(e)>>,
     <<"sync.mans", CSyncMans(e)>>, <<"sync.tags", CSyncTags(e)>>, <<"taglist", CTagList(e)>>,
     <<"refs", CRefs(e)>>, <<"sess", CSess(e)>>, <<"noerr", CNoErr(e)>>,
-    <<"gc.safe", CGCSafe(e)>>, <<"gc.exact", CGCExact(e)>>, <<"gc.idem", CGCIdem(e)>>,
+    <<"gc.safe", CGCSafe(e)>>, <<"gc.exact", CGCExact(e)>>, <<"gc.idem", CGCIdem(e)>>, <<"gc.index", CGCIndex(e)>>,
     <<"disk.layout", CDiskLayout(e)>>, <<"disk.index", CDiskIndex(e)>>, <<"disk.files", CDiskFiles(e)>>,
     <<"ro.frozen", CROFrozen(e)>>, <<"ro.refused", CRORefused(e)>>, <<"confined", CConfined(e)>> }
 
@@ -207,7 +211,7 @@ Enforced ==
     C14 |-> {"ro.frozen", "ro.refused", "resp", "sync.blobs", "sync.mans", "sync.tags", "taglist", "refs", "noerr"},
     C14F |-> {"ro.frozen", "ro.refused", "noerr"},      \* pre-existing foreign directories: content outside the catalogue
     C16 |-> {"confined", "resp", "sync.blobs", "sync.mans", "sync.tags", "taglist", "refs", "sess", "noerr"},
-    C06 |-> {"gc.exact", "gc.idem", "gc.safe", "sync.blobs", "sync.mans", "sync.tags", "taglist", "noerr"} ]
+    C06 |-> {"gc.exact", "gc.idem", "gc.safe", "gc.index", "sync.blobs", "sync.mans", "sync.tags", "taglist", "noerr"} ]
 
 Active == UNION {Enforced[p] : p \in Focus \cap DOMAIN Enforced}
 
